@@ -3,6 +3,11 @@
 use crate::run::Property;
 
 pub mod common;
+pub mod structs;
+pub mod c02;
+pub mod c03;
+pub mod c04;
+pub mod c05;
 pub mod c07;
 pub mod c08;
 pub mod c09;
@@ -18,7 +23,7 @@ pub mod c17;
 pub mod c18;
 
 pub fn all() -> Vec<Property> {
-    vec![c07::property(), c08::property(), c09::property(), c10::property(), c11::property(), c12::property(), c13::property(), c14::property(), c15::property(), c16::property(), c17::property(), c18::property()]
+    vec![c02::property(), c03::property(), c04::property(), c05::property(), c07::property(), c08::property(), c09::property(), c10::property(), c11::property(), c12::property(), c13::property(), c14::property(), c15::property(), c16::property(), c17::property(), c18::property()]
 }
 
 pub fn find(id: &str) -> Option<Property> {
